@@ -67,6 +67,7 @@ type monitor struct {
 	unknownSize                                               atomic.Int64
 	swallowedBackendFaults                                    atomic.Int64
 	heldRechecked                                             atomic.Int64
+	viewDigests                                               atomic.Int64
 	rewrittenSameStamp                                        atomic.Int64
 	cancelledSteps, cancelledMid, cancelCompleted, cancelNil  atomic.Int64
 	obsFailedObserved, obsDirtyAfterFail, katCompared         atomic.Int64
@@ -492,6 +493,8 @@ func main() {
 		}
 	})
 	m.runUnknownSizeFiles()
+	m.runArchiveViews()
+	r.Obs("digests_of_files_of_the_archive_views_judged", m.viewDigests.Load())
 	r.Obs("digests_of_files_whose_reported_size_is_zero_judged", m.unknownSize.Load())
 	r.Obs("backend_read_faults_not_reported_by_the_library_digest_judged", m.swallowedBackendFaults.Load())
 	r.Obs("digests_looked_at_again_after_later_calculations_on_the_same_hasher", m.heldRechecked.Load())
